@@ -4,6 +4,10 @@ in process   : 2-3 asyncio tasks doing sdo_read / sdo_write on one shared
                Terminal object (and on two terminals, which must be
                independent) over a bus with generated latencies; the terminal
                model logs every mailbox message with its header.
+               One family has a user list the object dictionary (SDO
+               information service, answers of up to ~750 fragments) while
+               another reads and writes: a request that arrives while answers
+               to the previous one are unread counts as interleaving.
 across processes: see vf/sched (harness-scheduled participants sharing the
                lock file through ParallelMailboxLock), part "x" of a case.
 oracle       : no initiate request of one user arrives while another user's
@@ -18,7 +22,7 @@ import struct
 
 from hypothesis import strategies as st
 
-from ebpfcat.ethercat import EtherCat, Terminal
+from ebpfcat.ethercat import CoECmd, EtherCat, ODCmd, Terminal
 from ebpfcat.lock import MailboxLock
 
 from ..sim import bus as simbus
@@ -111,6 +115,22 @@ def enumerate_cases(tier):
                        "chunks": [[0, s], [1, t], [0, 100], [1, 100]]}
 
 
+    # in process: one user lists the object dictionary of a terminal (an
+    # answer of up to 600 fragments) while another reads and writes objects
+    for od, mbx in ((0, [24, 24]), (5, [24, 24]), (40, [32, 40]),
+                    (700, [24, 24]), (1538, [24, 24]), (1600, [24, 24]),
+                    (3300, [24, 24]), (3300, [64, 32]), (9000, [128, 128])):
+        for sleeps in (0, 2):
+            yield {"terminals": 1, "od": od, "mbx": mbx,
+                   "tasks": [
+                       {"term": 0, "sleeps": 0,
+                        "ops": [{"op": "odlist", "len": 0, "sub": 0}]},
+                       {"term": 0, "sleeps": sleeps,
+                        "ops": [{"op": "read", "len": 5, "sub": 1},
+                                {"op": "write", "len": 30, "sub": 2}]}],
+                   "latency": [1, 0, 2], "delays": [0, 1]}
+
+
 def strategy(tier):
     return st.one_of(inproc_strategy(), inproc_strategy(), xproc_strategy())
 
@@ -144,6 +164,19 @@ class WatchingServer(simsdo.SdoServer):
         self.owner = None
         self.interleaved = []
         self.users_seen = []
+
+    def __call__(self, term, msg):
+        # every exchange of the library reads all mail its request causes
+        # before it ends: a request that arrives while answers are still
+        # queued was written inside somebody else's exchange
+        if term.mbx_in_queue:
+            self.interleaved.append(
+                (self.owner, "another", f"a request arriving while "
+                 f"{len(term.mbx_in_queue)} answers to the previous request "
+                 f"were still unread"))
+        if len(msg) >= 9 and msg[5] & 0xf == 3 and msg[7] >> 4 == 8:
+            self.owner = "od-list reader"
+        return super().__call__(term, msg)
 
     def sdo(self, b):
         cmd = b[0]
@@ -339,6 +372,8 @@ def run_case(case):
                     objects[0x2000 + (ti << 8) + oi, op["sub"]] = \
                         c16.value(op["len"], 16 * ti + oi)
         srv = WatchingServer(objects, delays=case["delays"])
+        srv.od_indexes = [0x1000 + 3 * i + (i & 1)
+                          for i in range(case.get("od", 0))]
         simsdo.attach(tm, srv, (0x1000, out_sz), (0x1800, in_sz))
         terms.append(tm)
         servers.append(srv)
@@ -374,7 +409,10 @@ def run_case(case):
             res = []
             for oi, op in enumerate(task["ops"]):
                 index = 0x2000 + (ti << 8) + oi
-                if op["op"] == "read":
+                if op["op"] == "odlist":
+                    res.append(bytes(await t.coe_request(
+                        CoECmd.SDOINFO, ODCmd.LIST_REQ, "H", 1)))
+                elif op["op"] == "read":
                     res.append(bytes(await t.sdo_read(index, op["sub"])))
                 else:
                     await t.sdo_write(c16.value(op["len"], 16 * ti + oi),
@@ -448,7 +486,16 @@ def run_case(case):
         for oi, op in enumerate(task["ops"]):
             want = c16.value(op["len"], 16 * ti + oi)
             index = 0x2000 + (ti << 8) + oi
-            if op["op"] == "read":
+            if op["op"] == "odlist":
+                want = b"".join(struct.pack("<H", i)
+                                for i in servers[k].od_indexes)
+                if r[oi] != want:
+                    return fail(f"user {ti} got an object list of "
+                                f"{len(r[oi]) // 2} entries from a terminal "
+                                f"with {len(want) // 2} objects"
+                                if len(r[oi]) != len(want) else
+                                f"user {ti} got a wrong object list")
+            elif op["op"] == "read":
                 if r[oi] != want:
                     return fail(f"user {ti} read {r[oi].hex()[:40]} for "
                                 f"object {index:#x}, which holds "
@@ -457,13 +504,18 @@ def run_case(case):
                 return fail(f"user {ti}'s write to {index:#x} did not "
                             f"arrive intact")
     shared = max(per_term) >= 2
+    frags = [sum(1 for e in srv.log if e == ("info", 1))
+             and -(-(2 * case.get("od", 0) + 2) // (in_sz - 12))
+             for srv in servers if ("info", 1) in srv.log]
     return dict(ok=True,
                 nontrivial=shared and any(case["latency"]),
                 key=repr((per_term, [[o["op"] for o in t["ops"]]
                                      for t in case["tasks"]],
-                          case["latency"])),
+                          case["latency"], case.get("od"))),
                 classes=classes + (["interleaving-possible"]
-                                   if any(case["latency"]) else []),
+                                   if any(case["latency"]) else [])
+                + ([f"od-list-fragments>{256 if max(frags) > 256 else 0}"]
+                   if frags else []),
                 summary={"messages": [len(t.mbx_log) for t in terms],
                          "users": per_term})
 
